@@ -1,6 +1,9 @@
 """C07 family: generic templates x tuples of concrete type arguments (primitives, tuples, arrays, Vec, Ref, function
 types, structs, enums, nested generic instances).  Each program instantiates one template at two or three argument
-tuples and prints the results; the meaning is GomlSem's (type passing), the implementation is the monomorphised Go."""
+tuples and prints the results; the meaning is GomlSem's (type passing), the implementation is the monomorphised Go.
+c07-under: generic functions whose type parameter occurs only under a type former (Vec, Ref, array, tuples, function type,
+generic struct / enum / recursive enum and their compositions) -- in the parameters only, in the result only, with a trait
+bound, reached through another generic function -- at two instantiations each."""
 from gast import *
 
 S = TAdt("S")
@@ -142,6 +145,150 @@ def programs(tier):
             add(f"bound:{a},{b}", [println(Call("gshow", va[0], targs=[ta])), println(Call("gshow", vb[0], targs=[tb])),
                                   println(Call("gshow_m", va[0], targs=[ta])), println(Call("twice", vb[0], targs=[tb])), println(Call("twice", va[0], targs=[ta])),
                                   println(Call("pair_show", va[0], vb[0], targs=[ta, tb])), println(Call("pair_show", vb[0], va[0], targs=[tb, ta]))])
+    out += under_programs(tier, cat)
+    return out
+
+
+# ---------------------------------------------------------------- type parameter only under a type former
+# A former F wraps a type: F[T] is the only place the parameter T occurs in the signature of the generic function (parameters
+# only, result only, with a trait bound, reached through another generic function).  A former gives
+#   ty(t)            the type F[t]
+#   build(x, t, key) an expression of type F[t] holding the value x (key names the catalogue entry of t)
+#   elim(c, k, d)    an expression that takes an element y out of c and continues with k(y), or d when c holds none
+#   empty(t)         an expression of type F[t] that needs no value of t, or None
+class Former:
+    def __init__(self, name, ty, build, elim, empty=None, konst=None):
+        # konst(x, t, key) -> (type, body) of the top-level function `konst_<key>` that build() refers to, when it needs one
+        self.name, self.ty, self.build, self.elim, self.empty, self.konst = name, ty, build, elim, empty, konst
+        self.needs_konst = konst is not None
+
+
+def formers():
+    F = {}
+    F["vec"] = Former("vec", TVec, lambda x, t, key: Call("vec_push", Call("vec_new", targs=[t]), x),
+                      lambda c, k, d, t: If(Bin("<", Int(0), Call("vec_len", c)), k(Call("vec_get", c, Int(0))), d),
+                      lambda t: Call("vec_new", targs=[t]))
+    F["ref"] = Former("ref", TRef, lambda x, t, key: Call("ref", x), lambda c, k, d, t: k(Call("ref_get", c)))
+    F["array"] = Former("array", lambda t: TArray(2, t), lambda x, t, key: Array(x, x), lambda c, k, d, t: k(Call("array_get", c, Int(1))))
+    F["tuple"] = Former("tuple", lambda t: TTuple(t, t), lambda x, t, key: Tuple(x, x), lambda c, k, d, t: k(Proj(c, 1)))
+    F["tuple-mixed"] = Former("tuple-mixed", lambda t: TTuple(INT32, t), lambda x, t, key: Tuple(Int(4), x), lambda c, k, d, t: k(Proj(c, 1)))
+    # a function type: the value is a top-level function `konst_<key>` returning the sample value
+    F["fn"] = Former("fn", lambda t: TFn([], t), lambda x, t, key: FnRef("konst_" + key), lambda c, k, d, t: k(CallV(c)), konst=lambda x, t, key: (t, x))
+    F["struct"] = Former("struct", box, lambda x, t, key: Struct(box(t), [("v", x)]), lambda c, k, d, t: k(Field(c, "v")))
+    F["enum"] = Former("enum", opt, lambda x, t, key: Ctor(opt(t), "Som", x),
+                       lambda c, k, d, t: Match(c, [(PCtor("Som", PVar("y")), k(Var("y"))), (PCtor("Non"), d)]), lambda t: Ctor(opt(t), "Non"))
+    F["rec-enum"] = Former("rec-enum", lambda t: TAdt("List", t), lambda x, t, key: Ctor(TAdt("List", t), "Cons", x, Ctor(TAdt("List", t), "Nil")),
+                           lambda c, k, d, t: Match(c, [(PCtor("Cons", PVar("h"), PWild), k(Var("h"))), (PCtor("Nil"), d)]), lambda t: Ctor(TAdt("List", t), "Nil"))
+    return F
+
+
+def compose(fo, fi):
+    """F o G: fo[fi[T]]; element variables of the two eliminations are kept apart by binding the inner container first"""
+    def elim(c, k, d, t):
+        v = "inner_" + fi.name.replace("-", "_")
+        # the inner container is bound with its type written out (the typer does not project / dispatch on a type it has yet to infer)
+        return fo.elim(c, lambda y: Block([Let(v, y, ty=fi.ty(t))], fi.elim(Var(v), k, d, t)), d, fi.ty(t))
+    empty = None
+    if fo.empty is not None:
+        empty = lambda t: fo.empty(fi.ty(t))
+    elif fi.empty is not None and not fo.needs_konst:
+        empty = lambda t: fo.build(fi.empty(t), fi.ty(t), None)
+    if fo.needs_konst:
+        if fi.needs_konst:
+            return None
+        # the function value is a top-level function returning the inner container
+        return Former(fo.name + "-of-" + fi.name, lambda t: fo.ty(fi.ty(t)), lambda x, t, key: fo.build(None, fi.ty(t), key), elim, empty,
+                      konst=lambda x, t, key: (fi.ty(t), fi.build(x, t, key)))
+    return Former(fo.name + "-of-" + fi.name, lambda t: fo.ty(fi.ty(t)), lambda x, t, key: fo.build(fi.build(x, t, key), fi.ty(t), key), elim, empty, konst=fi.konst)
+
+
+UNDER_POSITIONS = ["param", "param-and-fn", "result", "bound", "chain", "chain-bound"]
+
+
+def under_program(fm, pos, a, b, cat, name):
+    """one generic function whose parameter T occurs only under `fm`, instantiated at the catalogue types a and b"""
+    p = Program(name)
+    prelude(p)
+    Tp = TParam("T")
+    FT = fm.ty(Tp)
+    (ta, va, sa), (tb, vb, sb) = cat[a], cat[b]
+    if fm.needs_konst:
+        for key, t, v in ((a, ta, va[0]), (b, tb, vb[0])) if a != b else ((a, ta, va[0]),):
+            kt, kb = fm.konst(v, t, key)
+            p.fn("konst_" + key, [], kt, kb)
+    # probe: takes an element out (typed T inside the body) and answers with a number; the instance does not show in the result
+    # (the element goes to a generic `sink`, so that the local of type T is live)
+    p.fn("sink", [("u", TParam("U"))], INT32, Int(1), gens=["U"])
+    el = lambda y, use: Block([Let("el", y, ty=Tp)], use(Var("el")))
+    probe = lambda: p.fn("probe", [("c", FT)], INT32, fm.elim(Var("c"), lambda y: el(y, lambda z: Call("sink", z, targs=[Tp])), Int(0), Tp), gens=["T"])
+    show_in = lambda: p.fn("show_in", [("c", FT)], STRING, fm.elim(Var("c"), lambda y: el(y, lambda z: TCall("Show", "show", z)), Str("-"), Tp), gens=[("T", ["Show"])])
+    ba, bb = fm.build(va[0], ta, a), fm.build(vb[0], tb, b)
+    if pos == "param":
+        probe()
+        stmts = [Let("ca", ba, ty=fm.ty(ta)), Let("cb", bb, ty=fm.ty(tb)), println(show_int(Call("probe", Var("ca"), targs=[ta]))), println(show_int(Call("probe", Var("cb"), targs=[tb])))]
+    elif pos == "param-and-fn":
+        # T under the former and under a function type: the element is shown by the function that comes with it
+        p.fn("sh_" + a, [("x", ta)], STRING, sa(Var("x")))
+        if b != a:
+            p.fn("sh_" + b, [("x", tb)], STRING, sb(Var("x")))
+        p.fn("describe", [("c", FT), ("sh", TFn([Tp], STRING))], STRING, fm.elim(Var("c"), lambda y: el(y, lambda z: CallV(Var("sh"), z)), Str("-"), Tp), gens=["T"])
+        stmts = [Let("ca", ba, ty=fm.ty(ta)), Let("cb", bb, ty=fm.ty(tb)),
+                 println(Call("describe", Var("ca"), FnRef("sh_" + a), targs=[ta])), println(Call("describe", Var("cb"), FnRef("sh_" + b), targs=[tb]))]
+    elif pos == "result":
+        # T occurs in the result type only; the empty containers of both instances are then inspected and (for Vec) filled
+        probe()
+        p.fn("empty", [], FT, fm.empty(Tp), gens=["T"])
+        stmts = [Let("ea", Call("empty", targs=[ta]), ty=fm.ty(ta)), Let("eb", Call("empty", targs=[tb]), ty=fm.ty(tb)),
+                 println(show_int(Call("probe", Var("ea"), targs=[ta]))), println(show_int(Call("probe", Var("eb"), targs=[tb])))]
+        if fm.name == "vec":
+            stmts += [Let("fa", Call("vec_push", Var("ea"), va[0]), ty=fm.ty(ta)), Let("fb", Call("vec_push", Var("eb"), vb[0]), ty=fm.ty(tb)),
+                      Let("ga", Call("vec_get", Var("fa"), Int(0)), ty=ta), Let("gb", Call("vec_get", Var("fb"), Int(0)), ty=tb), println(sa(Var("ga"))), println(sb(Var("gb")))]
+    elif pos == "bound":
+        show_in()
+        stmts = [Let("ca", ba, ty=fm.ty(ta)), Let("cb", bb, ty=fm.ty(tb)), println(Call("show_in", Var("ca"), targs=[ta])), println(Call("show_in", Var("cb"), targs=[tb]))]
+    elif pos == "chain":
+        # reached through a generic function in whose signature T is bare
+        probe()
+        p.fn("via", [("x", Tp)], INT32, Block([Let("c", fm.build(Var("x"), Tp, None), ty=FT)], Call("probe", Var("c"), targs=[Tp])), gens=["T"])
+        stmts = [println(show_int(Call("via", va[0], targs=[ta]))), println(show_int(Call("via", vb[0], targs=[tb])))]
+    elif pos == "chain-bound":
+        show_in()
+        p.fn("via_show", [("x", Tp)], STRING, Block([Let("c", fm.build(Var("x"), Tp, None), ty=FT)], Call("show_in", Var("c"), targs=[Tp])), gens=[("T", ["Show"])])
+        stmts = [println(Call("via_show", va[0], targs=[ta])), println(Call("via_show", vb[0], targs=[tb]))]
+    else:
+        raise ValueError(pos)
+    p.fn("main", [], UNIT, Block(stmts, Unit))
+    return p
+
+
+def under_programs(tier, cat):
+    F = formers()
+    names = list(F)
+    fms = [F[n] for n in names]
+    # compositions: every former once outside and once inside (quick); all ordered pairs (thorough)
+    if tier == "quick":
+        fms += [compose(F[names[i]], F[names[(i + 1) % len(names)]]) for i in range(len(names))]
+    else:
+        fms += [compose(F[o], F[i]) for o in names for i in names]
+    fms = [f for f in fms if f is not None]
+    showable = ["int32", "string", "bool", "S", "boxi", "boxs", "optb"]
+    anyty = ["int32", "string", "bool", "tup", "S", "E", "arr", "ref", "boxi", "optb", "int8", "unit", "vec", "fn"]
+    out, idx = [], 0
+    for fi, fm in enumerate(fms):
+        for pi, pos in enumerate(UNDER_POSITIONS):
+            if pos == "result" and fm.empty is None:
+                continue
+            if pos in ("chain", "chain-bound") and fm.needs_konst:
+                continue        # a value of type () -> T cannot be made from x: T without a closure
+            if tier == "quick" and (fi + pi) % (3 if "-of-" in fm.name else 2):
+                continue        # quick: three of the six positions for each former, two for each composed former (rotating)
+            pool = showable if pos in ("bound", "chain-bound") else anyty
+            npairs = 1 if tier == "quick" or "-of-" in fm.name else 2
+            for j in range(npairs):
+                a = pool[(fi + pi + j) % len(pool)]
+                b = pool[(fi + pi + j + 1 + j) % len(pool)]
+                idx += 1
+                out.append({"prog": under_program(fm, pos, a, b, cat, f"c07_under_{idx}"), "family": "c07-under", "ident": f"c07:under={fm.name}:pos={pos}:{a},{b}"})
     return out
 
 
